@@ -26,3 +26,66 @@ func H_C14_Filter() {
 	}
 	v.Reach("end")
 }
+
+func zzSamePerms(a, b []string) bool {
+	if len(a) != len(b) {
+		return false
+	}
+	for i := range a {
+		if a[i] != b[i] {
+			return false
+		}
+	}
+	return true
+}
+
+// H_C14_Change: a permission change is announced to all members.  Member
+// "o" (any of six changes applied to it, as the op/unop/present/unpresent/
+// shutup/unshutup user actions do) handles the change and the notification
+// it queues for itself; afterwards EVERY member of the group - the changed
+// one and the bystander - has exactly one "change" event about "o" queued,
+// carrying o's NEW permissions and true username, and handling it writes
+// exactly that to the member's socket; the changed client is itself told
+// its new permissions.
+func H_C14_Change() {
+	kind := []string{"op", "unop", "present", "unpresent", "shutup", "unshutup"}[v.Choice("kind", 6)]
+	c, other, _, _ := zzWorld(1)
+	before := append([]string(nil), other.permissions...)
+	err := handleAction(other, changePermissionsAction{kind: kind})
+	v.Assert(err == nil, "the change is applied")
+	for _, a := range zzQueued(other) {
+		if _, ok := a.(permissionsChangedAction); ok {
+			handleAction(other, a)
+		} else {
+			other.actions.Put(a)
+		}
+	}
+	v.Tick() // natively the announcement runs in its own goroutine
+	now := append([]string(nil), other.permissions...)
+	told := false
+	for _, m := range zzDrain(other) {
+		if m.Type == "joined" && m.Kind == "change" {
+			told = true
+			v.Assert(zzSamePerms(m.Permissions, now), "the changed client is told its new permissions")
+		}
+	}
+	v.Assert(told, "the changed client is told about the change")
+	for _, x := range []*webClient{c, other} {
+		n := 0
+		for _, a := range zzQueued(x) {
+			p, ok := a.(pushClientAction)
+			if !ok || p.kind != "change" {
+				continue
+			}
+			n++
+			v.Assert(p.group == "g" && p.id == "o" && p.username == "other", "the announcement names the changed member truthfully")
+			v.Assert(zzSamePerms(p.permissions, now), "and carries its NEW permissions")
+			handleAction(x, a)
+			out := zzDrain(x)
+			v.Assert(len(out) == 1 && out[0].Type == "user" && out[0].Kind == "change" && out[0].Id == "o" && zzSamePerms(out[0].Permissions, now), "which is what is written to the member's socket")
+		}
+		v.Assert(n == 1, "a permission change is announced exactly once to every member, the changed one included")
+	}
+	_ = before
+	v.Reach("end")
+}
